@@ -540,11 +540,11 @@ def parse_teal(  # pylint: disable=too-many-locals,too-many-branches,too-many-st
     for bi in all_bbs:
         if bi not in all_reachable_blocks:
             # bi is unreachable
-            for bnext in bi.next:
+            for bnext in list(bi.next):
                 bnext.prev.remove(bi)
                 bi.next.remove(bnext)
 
-            for ins_next in bi.exit_instr.next:
+            for ins_next in list(bi.exit_instr.next):
                 ins_next.prev.remove(bi.exit_instr)
                 bi.exit_instr.next.remove(ins_next)
 
